@@ -1,4 +1,5 @@
 mod c02;
+mod c04;
 mod c05;
 mod schema;
 mod uni;
@@ -28,6 +29,7 @@ fn checks_for(property: &str, tier: Tier) -> Vec<Box<dyn Check>> {
         | "C01" => vec![Box::new(c02::Universe::new(c02::Mode::Safety, tier))],
         | "C02" => vec![Box::new(c02::Universe::new(c02::Mode::Agreement, tier))],
         | "C03" => vec![Box::new(c02::Universe::new(c02::Mode::Acceptance, tier))],
+        | "C04" => c04::checks(tier),
         | "C05" => c05::checks(),
         | "C18" => vec![Box::new(c18::Lowered::new(c18::Mode::Lowering, tier))],
         | "C19" => vec![Box::new(c18::Lowered::new(c18::Mode::Preservation, tier))],
